@@ -40,6 +40,7 @@ var Prop = &engine.Prop{
 		{Name: "conc-fresh", Quick: 600, Thorough: 40000, Fn: concFreshCase},
 		{Name: "lock-order", Quick: 400, Thorough: 16000, Fn: lockOrderCase},
 		{Name: "conc-overwrite", Quick: 60, Thorough: 2400, Fn: concOverwriteCase},
+		{Name: "conc-remap", Quick: 60, Thorough: 2400, Fn: concRemapCase},
 	},
 	Floors: map[string]int64{
 		// routing
